@@ -153,6 +153,10 @@ def apply_op(srf, ref, op, cfg, twin):
             kw["model"] = srf.model
         elif op.get("model") == "equal":
             kw["model"] = make_model(ref)
+        elif op.get("model") == "other_anis":
+            ref["anis"] = [0.45, 1.3][: len(ref["anis"])]
+            srf.model = make_model(ref)  # the field object and its generator stay on the same model
+            kw["model"] = srf.model
         if op.get("seed") is not None:
             kw["seed"] = seed_obj(op["seed"], twin)
             ref["seed"] = op["seed"]
@@ -160,8 +164,8 @@ def apply_op(srf, ref, op, cfg, twin):
             kw["period"] = op["period"]
             ref["period"] = _fill(op["period"], ref["dim"])
         if op.get("mode_no") is not None:
-            kw["mode_no"] = op["mode_no"]
-            ref["mode_no"] = op["mode_no"]
+            kw["mode_no"] = ref["mode_no"] if op["mode_no"] == "current" else op["mode_no"]
+            ref["mode_no"] = kw["mode_no"]
         srf.generator.update(**kw)
     elif k == "mean_velocity":
         srf.generator.mean_u = op["v"]
@@ -292,6 +296,11 @@ def ops_for(cfg, tier="quick"):
         A({"k": "gen_update", "model": "current", "period": [8.0, 6.0, 11.0][:d]})
         A({"k": "gen_update", "model": "equal", "mode_no": [4, 8, 2][:d]})
         A({"k": "gen_update", "model": None, "seed": "S2", "period": 6.5})
+        # settings passed again with their present value together with a changed one
+        A({"k": "gen_update", "model": None, "period": [11.0, 5.5, 8.0][:d], "mode_no": "current"})
+        if d > 1:
+            A({"k": "gen_update", "model": "other_anis", "mode_no": "current"})
+            A({"k": "period", "v": [9.5, 13.0][: d - 1] if d > 2 else [9.5]})  # shorter than dim: filled with the last entry
     else:
         A({"k": "gen_mode_no", "v": 7})
         A({"k": "gen_update", "model": "current", "seed": "S2"})
